@@ -1,12 +1,13 @@
 package store
 
 import (
-	"bufio"
 	"fmt"
 	"os"
 	"path/filepath"
 	"regexp"
 	"strings"
+
+	"github.com/JunNishimura/Goit/internal/fsutil"
 )
 
 var (
@@ -42,7 +43,7 @@ func (i *Ignore) load(rootGoitPath string) error {
 	}
 	defer f.Close()
 
-	scanner := bufio.NewScanner(f)
+	scanner := fsutil.NewLineScanner(f)
 	for scanner.Scan() {
 		text := scanner.Text()
 		var replacedText string
